@@ -58,6 +58,10 @@ struct UniqueGuard
 #include <memory>
 #include <thread>
 
+#ifdef RLBOX_EMBEDDER_PROVIDES_TLS_STATIC_VARIABLES
+RLBOX_NOOP_SANDBOX_STATIC_VARIABLES();
+#endif
+
 using namespace sim;
 using SimSbx = rlbox::rlbox_sim_sandbox;
 using NoopSbx = rlbox::rlbox_noop_sandbox;
@@ -282,6 +286,8 @@ static void thread_body(int tid, const std::vector<Op>& ops, ThreadResult& R)
         // store a pointer through the cell and read it back: both translations are example based
         rlbox::tainted<int*, Sbx> p = s.obj + (int)((uint64_t)op.a[2] % 4);
         rlbox::tainted<int*, Sbx> q = nullptr;
+        if constexpr (std::is_same_v<Sbx, SimSbx>)
+          SimSbx::last_registry_inst = -2;
         Outcome o = attempt([&] {
           *s.cell = p;
           simsched::yield("between_store_and_load");
@@ -291,6 +297,10 @@ static void thread_body(int tid, const std::vector<Op>& ops, ThreadResult& R)
           viol("pointer_store_load_fails@ptr_roundtrip", g_last_abort_msg.c_str());
         else if (q.UNSAFE_unverified() != p.UNSAFE_unverified())
           viol("pointer_translated_relative_to_another_sandbox@ptr_roundtrip", "loaded pointer differs from the stored one");
+        if constexpr (std::is_same_v<Sbx, SimSbx>) {
+          if (o == OK && SimSbx::last_registry_inst != -2 && SimSbx::last_registry_inst != s.sb->get_sandbox_impl()->inst_id)
+            viol("registry_answered_with_another_sandbox@ptr_roundtrip", "the live-sandbox registry resolved an address of this thread's sandbox to a different sandbox object");
+        }
         break;
       }
       case T_REGISTER: {
@@ -404,7 +414,7 @@ struct ThreadsWorld : World
     int nthreads = (int)r.range(2, thorough ? 8 : 5);
     int bias = (int)r.below(3);
     int mix = (int)r.below(3); // 0 all sim, 1 all noop, 2 alternate
-    p.cfg = { nthreads, bias, mix, (int64_t)(r.next() >> 2) };
+    p.cfg = { nthreads, bias, mix, (int64_t)(r.next() >> 2), (int64_t)r.below(2) };
     int n = (int)r.range(6, thorough ? 60 : 36);
     std::vector<unsigned> w = { 10, 6, 12, 6, 3, 10, 5, 4, 2 };
     // every thread starts by creating a sandbox
@@ -444,6 +454,7 @@ struct ThreadsWorld : World
     SimSbx::cfg.size = 4096;
     SimSbx::cfg.registry = true;
     SimSbx::cfg.slots = 4;
+    SimSbx::cfg.reuse = p.cfg.size() > 4 && p.cfg[4]; // memory of a destroyed sandbox may be handed to another thread's create
     std::vector<std::vector<Op>> per((size_t)nthreads);
     for (auto& op : p.ops)
       per[(uint64_t)op.a[0] % (uint64_t)nthreads].push_back(op);
@@ -477,6 +488,7 @@ struct ThreadsWorld : World
     for (auto& t : th)
       t.join();
     g_yield = nullptr;
+    pool_release();
     simsched::Result sr = simsched::result();
     c.ev("threads=%d bias=%d mix=%d decisions=%llu switches=%llu schedule=%016llx",
          nthreads,
